@@ -1368,6 +1368,273 @@ Section Sem.
       Qed.
 
 
+      (* ---- expressions: the instrumented expression under the runtime model = the reference semantics *)
+      Definition ic (c : rctx) : ictx := {| in_str := r_str c; in_target := r_tgt c |}.
+
+      Fixpoint cmps_len (r : cmps) : nat := match r with Cnil => 0 | Ccons _ _ x => S (cmps_len x) end.
+
+      (* guard clause "chain_eager": no covered comparison chain of two or more links *)
+      Fixpoint ok_e (e : expr) : bool :=
+        match e with
+        | EConst _ _ | EName _ _ _ => true
+        | EUn _ _ a | EAttr _ a _ => ok_e a
+        | EBin _ _ a b | EBool _ _ a b | ESub _ a b => ok_e a && ok_e b
+        | ECmp _ a r => ok_e a && ok_c r && (Nat.leb (cmps_len r) 1 || negb (cmps_cov r))
+        | EIfExp _ c a b => ok_e c && ok_e a && ok_e b
+        | ECall _ f args => ok_e f && ok_es args
+        | EList _ es | ETuple _ es => ok_es es
+        | _ => false
+        end
+      with ok_es (es : exprs) : bool := match es with Enil => true | Econs e r => ok_e e && ok_es r end
+      with ok_c (r : cmps) : bool := match r with Cnil => true | Ccons _ e r => ok_e e && ok_c r end.
+
+      Lemma decode_unop o : decode unop_code all_unops (unop_code o) = Some o.
+      Proof. destruct o; reflexivity. Qed.
+      Lemma decode_binop o : decode binop_code all_binops (binop_code o) = Some o.
+      Proof. destruct o; reflexivity. Qed.
+      Lemma decode_boolop_bin o : decode binop_code all_binops (boolop_code o) = None.
+      Proof. destruct o; reflexivity. Qed.
+      Lemma decode_boolop o : decode boolop_code all_boolops (boolop_code o) = Some o.
+      Proof. destruct o; reflexivity. Qed.
+      Lemma decode_cmpop o : decode cmpop_code all_cmpops (cmpop_code o) = Some o.
+      Proof. destruct o; reflexivity. Qed.
+
+      Lemma any_cmp_sel_cov r : any_cmp_sel H r = cmps_cov r.
+      Proof. induction r as [|o e r IH]; simpl; [reflexivity|]. rewrite IH. reflexivity. Qed.
+
+      Lemma eval_list_unfold es :
+        eval_list call es = match es with Enil => ret [] | Econs e r => bind (eval call e) (fun v => bind (eval_list call r) (fun vs => ret (v :: vs))) end.
+      Proof. destruct es; reflexivity. Qed.
+      Lemma reval_list_unfold c es :
+        reval_list c es = match es with Enil => ret [] | Econs e r => bind (reval c e) (fun v => bind (reval_list c r) (fun vs => ret (v :: vs))) end.
+      Proof. destruct es; reflexivity. Qed.
+
+      Fixpoint rlinks (c : rctx) (r : cmps) : M (list (Z * val)) :=
+        match r with
+        | Cnil => ret []
+        | Ccons o e rest => bind (reval c e) (fun v => bind (rlinks c rest) (fun vs => ret ((cmpop_code o, v) :: vs)))
+        end.
+
+      Lemma eval_cmps_unfold l r :
+        eval_cmps call l r =
+        match r with
+        | Cnil => ret l
+        | Ccons o e Cnil => bind (eval call e) (fun rv => prim (p_cmp o l rv))
+        | Ccons o e rest =>
+          bind (eval call e) (fun rv => bind (prim (p_cmp o l rv)) (fun v => bind (truth v) (fun t =>
+            if t then eval_cmps call rv rest else ret v)))
+        end.
+      Proof. destruct r as [|o e [|o2 e2 r2]]; reflexivity. Qed.
+
+      Lemma eval_rcmps_unfold r :
+        eval_rcmps call r =
+        match r with
+        | RCnil => ret []
+        | RCcons code e rest => bind (eval call e) (fun v => bind (eval_rcmps call rest) (fun vs => ret ((code, v) :: vs)))
+        end.
+      Proof. destruct r; reflexivity. Qed.
+
+      Lemma reval_cmps_unfold c n on ann first l r :
+        reval_cmps c n on ann first l r =
+        match r with
+        | Cnil => ret l
+        | Ccons o e rest =>
+          bind (reval c e) (fun rv =>
+          bind (announce (on && ann) false n) (fun _ =>
+          bind (prim (p_cmp o l rv)) (fun v =>
+          bind (if on then
+                  bind (ev "operation" n [AS (cmpop_cls o); AL [AV first; AV rv]; AV v]) (fun _ =>
+                  bind (ev "comparison" n [AV l; AS (cmpop_cls o); AV rv; AV v]) (fun hi =>
+                  bind (ev (snake (cmpop_cls o)) n [AV l; AV rv; AV v]) (fun lo =>
+                  ret (sel3 lo hi v))))
+                else ret v) (fun v' =>
+          match rest with
+          | Cnil => ret v'
+          | _ => bind (truth v') (fun t => if t then reval_cmps c n on false first rv rest else ret v')
+          end))))
+        end.
+      Proof. destruct r; reflexivity. Qed.
+
+      Lemma announce_off cf n : meq (announce false cf n) (ret tt).
+      Proof. Transparent announce. unfold announce. Opaque announce. reflexivity. Qed.
+      Lemma announce_on_nocf n : meq (announce true false n) (RE n).
+      Proof. Transparent announce. unfold announce. Opaque announce. rewrite <- (bind_ret_r (RE n)) at 2. mstep. destruct a. reflexivity. Qed.
+      Lemma announce_on_cf n : meq (announce true true n) (bind (RE n) (fun _ => CF n)).
+      Proof. Transparent announce. unfold announce. Opaque announce. reflexivity. Qed.
+
+      Lemma instr_ECall c n f args :
+        instr_e H c (ECall n f args) =
+        if sel H "pre_call" || sel H "post_call" then RCall n (instr_e H c f) (instr_es H (with_str c) args)
+        else ECall n (instr_e H c f) (instr_es H (with_str c) args).
+      Proof. reflexivity. Qed.
+      Lemma instr_EList c n es :
+        instr_e H c (EList n es) =
+        if sel H "_list" && negb (in_target c) then RLit LList n (EList n (instr_es H c es)) else EList n (instr_es H c es).
+      Proof. reflexivity. Qed.
+      Lemma instr_ETuple c n es :
+        instr_e H c (ETuple n es) =
+        if sel H "_tuple" && negb (in_target c) then RLit LTuple n (EList n (instr_es H c es)) else ETuple n (instr_es H c es).
+      Proof. reflexivity. Qed.
+
+      Lemma instr_c_cons c o e r : instr_c H c (Ccons o e r) = Ccons o (instr_e H c e) (instr_c H c r).
+      Proof. reflexivity. Qed.
+      Lemma instr_rc_cons c o e r : instr_rc H c (Ccons o e r) = RCcons (cmpop_code o) (instr_e H c e) (instr_rc H c r).
+      Proof. reflexivity. Qed.
+
+      Theorem refine_expr :
+        (forall e, src_e e = true -> ok_e e = true -> forall c, meq (eval call (instr_e H (ic c) e)) (reval c e))
+        /\ (forall es, src_es es = true -> ok_es es = true -> forall c, meq (eval_list call (instr_es H (ic c) es)) (reval_list c es))
+        /\ (forall r, src_c r = true -> ok_c r = true -> forall c,
+              (cmps_cov r = false -> forall n ann first l,
+                 meq (eval_cmps call l (instr_c H (ic c) r)) (reval_cmps c n false ann first l r))
+              /\ meq (eval_rcmps call (instr_rc H (ic c) r)) (rlinks c r))
+        /\ (forall r : rcmps, True).
+      Proof.
+        apply expr_all_ind; try (intros; discriminate); try (intros; exact I).
+        - (* EConst *) intros n k _ _ c. rewrite reval_unfold. cbn [reval_body instr_e].
+          destruct k; cbn [const_cov const_hook in_target in_str ic]; unfold sel, cov.
+          all: match goal with |- context [if ?b then _ else _] => destruct b end.
+          all: rewrite ?eval_unfold; cbn [eval_body]; rewrite ?eval_unfold; cbn [eval_body].
+          all: try reflexivity.
+          all: mnorm; unfold rt_lit; rewrite announce_on_nocf; reflexivity.
+        - (* EName *) intros n x s _ _ c. rewrite reval_unfold. cbn [reval_body instr_e]. unfold name_cov, blacklist, sel, cov. cbn [in_target ic].
+          match goal with |- context [mem_str x ?l] => destruct (mem_str x l) end; cbn [negb orb andb];
+            [rewrite eval_unfold; reflexivity|].
+          destruct (r_tgt c); cbn [negb orb andb]; [rewrite eval_unfold; reflexivity|].
+          destruct (mem_str "read_identifier" H); destruct s; cbn [negb orb andb]; rewrite eval_unfold; cbn [eval_body]; try reflexivity.
+          unfold rt_read. rewrite announce_on_nocf. reflexivity.
+        - (* EUn *) intros n o e IH Hs Ho c. simpl in Hs, Ho. specialize (IH Hs Ho). rewrite reval_unfold. cbn [reval_body instr_e].
+          change (sel_or_us H (snake (unop_cls o))) with (cov_us (snake (unop_cls o))).
+          destruct (cov_us (snake (unop_cls o))) eqn:C; rewrite eval_unfold; cbn [eval_body].
+          + (* covered: _unary_op_ *)
+            rewrite IH. unfold rt_unary. rewrite decode_unop.
+            destruct o.
+            * mstep. rewrite announce_on_nocf. mnorm. mstep. msteps. reflexivity.
+            * mstep. rewrite announce_on_nocf. mnorm. mstep. msteps. reflexivity.
+            * (* not *) setoid_rewrite reval_tv_value. mnorm. mstep. cbn [fst snd].
+              Transparent rnot_events. unfold rnot_events. Opaque rnot_events. rewrite C.
+              rewrite announce_on_nocf. setoid_rewrite truth_ret. mnorm. msteps. split_opts; mnorm; try reflexivity;
+                setoid_rewrite truth_ret; mnorm; reflexivity.
+            * mstep. rewrite announce_on_nocf. mnorm. mstep. msteps. reflexivity.
+          + (* not covered *)
+            destruct o.
+            * rewrite IH. mstep. rewrite announce_off. mnorm. rewrite <- (bind_ret_r (prim (p_un UInvert a))) at 1. reflexivity.
+            * rewrite IH. mstep. rewrite announce_off. mnorm. rewrite <- (bind_ret_r (prim (p_un UMinus a))) at 1. reflexivity.
+            * rewrite eval_test_value. rewrite IH. setoid_rewrite reval_tv_value. mnorm. mstep. cbn [fst snd].
+              Transparent rnot_events. unfold rnot_events. Opaque rnot_events. rewrite C. rewrite announce_off. mnorm. reflexivity.
+            * rewrite IH. mstep. rewrite announce_off. mnorm. rewrite <- (bind_ret_r (prim (p_un UPlus a))) at 1. reflexivity.
+        - (* EBin *) intros n o a IHa b IHb Hs Ho c. simpl in Hs, Ho.
+          apply andb_true_iff in Hs; destruct Hs as [Hs1 Hs2]. apply andb_true_iff in Ho; destruct Ho as [Ho1 Ho2].
+          specialize (IHa Hs1 Ho1 (rc_str c)). specialize (IHb Hs2 Ho2 (rc_str c)).
+          rewrite reval_unfold. cbn [reval_body instr_e]. change (with_str (ic c)) with (ic (rc_str c)).
+          change (sel H (snake (binop_cls o))) with (cov (snake (binop_cls o))).
+          destruct (cov (snake (binop_cls o))) eqn:C; rewrite eval_unfold; cbn [eval_body].
+          + unfold rt_binary. rewrite decode_binop. rewrite announce_on_nocf. mstep. rewrite IHa. mstep. rewrite IHb. mstep. msteps. reflexivity.
+          + rewrite announce_off. mnorm. rewrite IHa. mstep. rewrite IHb. mstep.
+            rewrite <- (bind_ret_r (prim (p_bin o a0 a1))) at 1. reflexivity.
+        - (* EBool *) intros n o a IHa b IHb Hs Ho c. simpl in Hs, Ho.
+          apply andb_true_iff in Hs; destruct Hs as [Hs1 Hs2]. apply andb_true_iff in Ho; destruct Ho as [Ho1 Ho2].
+          specialize (IHa Hs1 Ho1 c). specialize (IHb Hs2 Ho2 c).
+          rewrite reval_unfold. cbn [reval_body instr_e].
+          change (sel_or_us H (snake (boolop_cls o))) with (cov_us (snake (boolop_cls o))).
+          destruct (cov_us (snake (boolop_cls o))) eqn:C; rewrite eval_unfold; cbn [eval_body].
+          + unfold rt_binary. rewrite decode_boolop_bin, decode_boolop. rewrite announce_on_nocf. mstep. rewrite IHa. mstep. mstep.
+            destruct (match o with BAnd => a2 | BOr => negb a2 end).
+            * rewrite IHb. mstep. msteps. reflexivity.
+            * msteps. reflexivity.
+          + rewrite announce_off. mnorm. try rewrite bind_ret_l.
+            rewrite IHa. mstep. mstep.
+            destruct (match o with BAnd => a1 | BOr => negb a1 end); [|reflexivity].
+            rewrite IHb. rewrite <- (bind_ret_r (reval c b)) at 1. reflexivity.
+        - (* ECmp *) intros n a IHa r IHr Hs Ho c. simpl in Hs, Ho.
+          apply andb_true_iff in Hs; destruct Hs as [Hs1 Hs2].
+          apply andb_true_iff in Ho; destruct Ho as [Ho12 Ho3]. apply andb_true_iff in Ho12; destruct Ho12 as [Ho1 Ho2].
+          specialize (IHa Hs1 Ho1 c). destruct (IHr Hs2 Ho2 c) as [IHr1 IHr2].
+          rewrite reval_unfold. cbn [reval_body instr_e]. rewrite any_cmp_sel_cov.
+          destruct (cmps_cov r) eqn:C; rewrite eval_unfold; cbn [eval_body].
+          + (* covered: exactly one link *)
+            rewrite orb_false_r in Ho3.
+            destruct r as [|o e [|o2 e2 r2]]; [discriminate C| |discriminate Ho3].
+            rewrite IHa. mstep. rewrite IHr2. cbn [rlinks]. mnorm. rewrite reval_cmps_unfold. mstep.
+            unfold rt_comp. cbn [rt_comp_links]. rewrite decode_cmpop. cbn [andb]. rewrite announce_on_nocf. mnorm.
+            mstep. mstep. msteps. reflexivity.
+          + rewrite IHa. mstep. apply IHr1. reflexivity.
+        - (* EIfExp *) intros n t IHt a IHa b IHb Hs Ho c. simpl in Hs, Ho.
+          apply andb_true_iff in Hs; destruct Hs as [Hs12 Hs3]. apply andb_true_iff in Hs12; destruct Hs12 as [Hs1 Hs2].
+          apply andb_true_iff in Ho; destruct Ho as [Ho12 Ho3]. apply andb_true_iff in Ho12; destruct Ho12 as [Ho1 Ho2].
+          specialize (IHt Hs1 Ho1 c). specialize (IHa Hs2 Ho2 c). specialize (IHb Hs3 Ho3 c).
+          rewrite reval_unfold. cbn [reval_body instr_e].
+          change (sel H "enter_if" || sel H "exit_if") with (cov "enter_if" || cov "exit_if").
+          destruct (cov "enter_if" || cov "exit_if") eqn:C; rewrite eval_unfold; cbn [eval_body].
+          + unfold rt_ifexp. rewrite IHt. setoid_rewrite announce_on_cf.
+            destruct (jumpy t); [setoid_rewrite reval_tv_value|]; mnorm; mstep; mstep; mstep; mstep; mstep; cbn [fst snd];
+              setoid_rewrite truth_ret; mnorm.
+            * destruct a4, a3; unfold sel3; rewrite ?truth_ret; mnorm;
+                match goal with |- context [if ?x then _ else _] => destruct x end; [rewrite IHa|rewrite IHb|rewrite IHa|rewrite IHb|rewrite IHa|rewrite IHb|rewrite IHa|rewrite IHb];
+                mstep; msteps; reflexivity.
+            * destruct a4, a3; unfold sel3; rewrite ?truth_ret; mnorm;
+                match goal with |- context [if ?x then _ else _] => destruct x end; [rewrite IHa|rewrite IHb|rewrite IHa|rewrite IHb|rewrite IHa|rewrite IHb|rewrite IHa|rewrite IHb];
+                mstep; msteps; reflexivity.
+          + rewrite eval_test_value, IHt. setoid_rewrite reval_tv_value. mnorm. mstep. cbn [snd].
+            destruct (tr a0); [apply IHa|apply IHb].
+        - (* EAttr *) intros n a IHa x Hs Ho c. simpl in Hs, Ho. specialize (IHa Hs Ho c).
+          rewrite reval_unfold. cbn [reval_body instr_e]. cbn [in_target ic].
+          change (sel H "read_attribute") with (cov "read_attribute").
+          destruct (cov "read_attribute" && negb (r_tgt c)) eqn:C; rewrite eval_unfold; cbn [eval_body]; rewrite IHa; mstep.
+          + unfold rt_attr. rewrite announce_on_nocf. mstep. msteps. reflexivity.
+          + rewrite announce_off. mnorm. try rewrite bind_ret_l. rewrite <- (bind_ret_r (prim (p_getattr a0 x))) at 1. reflexivity.
+        - (* ESub *) intros n a IHa i IHi Hs Ho c. simpl in Hs, Ho.
+          apply andb_true_iff in Hs; destruct Hs as [Hs1 Hs2]. apply andb_true_iff in Ho; destruct Ho as [Ho1 Ho2].
+          specialize (IHa Hs1 Ho1 c). specialize (IHi Hs2 Ho2 c).
+          rewrite reval_unfold. cbn [reval_body instr_e]. cbn [in_target ic].
+          change (sel H "read_subscript") with (cov "read_subscript").
+          destruct (cov "read_subscript" && negb (r_tgt c)) eqn:C; rewrite eval_unfold; cbn [eval_body]; rewrite IHa; mstep; rewrite IHi; mstep.
+          + unfold rt_sub. mnorm. mstep. rewrite announce_on_nocf. mstep. msteps. reflexivity.
+          + rewrite bind_ret_l. rewrite announce_off. mnorm. try rewrite bind_ret_l. rewrite <- (bind_ret_r (prim (p_getitem a0 a1))) at 1. reflexivity.
+        - (* ECall *) intros n f IHf args IHargs Hs Ho c. simpl in Hs, Ho.
+          apply andb_true_iff in Hs; destruct Hs as [Hs1 Hs2]. apply andb_true_iff in Ho; destruct Ho as [Ho1 Ho2].
+          specialize (IHf Hs1 Ho1 c). specialize (IHargs Hs2 Ho2 (rc_str c)).
+          rewrite reval_unfold. cbn [reval_body]. rewrite instr_ECall. change (with_str (ic c)) with (ic (rc_str c)).
+          change (sel H "pre_call" || sel H "post_call") with (cov "pre_call" || cov "post_call").
+          destruct (cov "pre_call" || cov "post_call") eqn:C; rewrite eval_unfold; cbn [eval_body]; rewrite IHf; mstep; rewrite IHargs; mstep.
+          + unfold rt_call. rewrite announce_on_cf. mnorm. mstep. msteps. reflexivity.
+          + reflexivity.
+        - (* EList *) intros n es IHes Hs Ho c. simpl in Hs, Ho. specialize (IHes Hs Ho c).
+          rewrite reval_unfold. cbn [reval_body]. rewrite instr_EList. cbn [in_target ic].
+          change (sel H "_list") with (cov "_list").
+          destruct (cov "_list" && negb (r_tgt c)) eqn:C; rewrite eval_unfold; cbn [eval_body].
+          + rewrite eval_unfold; cbn [eval_body]. mnorm. rewrite IHes. mstep. mstep.
+            unfold rt_lit. rewrite announce_on_nocf. reflexivity.
+          + rewrite IHes. mstep. rewrite <- (bind_ret_r (prim_total (p_mklist a))) at 1. reflexivity.
+        - (* ETuple *) intros n es IHes Hs Ho c. simpl in Hs, Ho. specialize (IHes Hs Ho c).
+          rewrite reval_unfold. cbn [reval_body]. rewrite instr_ETuple. cbn [in_target ic].
+          change (sel H "_tuple") with (cov "_tuple").
+          destruct (cov "_tuple" && negb (r_tgt c)) eqn:C; rewrite eval_unfold; cbn [eval_body].
+          + rewrite eval_unfold; cbn [eval_body]. mnorm. rewrite IHes. mstep. mstep.
+            unfold rt_lit. rewrite announce_on_nocf. reflexivity.
+          + rewrite IHes. reflexivity.
+        - (* Enil *) intros _ _ c. reflexivity.
+        - (* Econs *) intros e IHe r IHr Hs Ho c. simpl in Hs, Ho.
+          apply andb_true_iff in Hs; destruct Hs as [Hs1 Hs2]. apply andb_true_iff in Ho; destruct Ho as [Ho1 Ho2].
+          cbn [instr_es]. rewrite eval_list_unfold, reval_list_unfold. rewrite (IHe Hs1 Ho1 c). mstep. rewrite (IHr Hs2 Ho2 c). reflexivity.
+        - (* Cnil *) intros _ _ c. split; [intros _ n ann first l; reflexivity|reflexivity].
+        - (* Ccons *) intros o e IHe r IHr Hs Ho c. simpl in Hs, Ho.
+          apply andb_true_iff in Hs; destruct Hs as [Hs1 Hs2]. apply andb_true_iff in Ho; destruct Ho as [Ho1 Ho2].
+          specialize (IHe Hs1 Ho1 c). destruct (IHr Hs2 Ho2 c) as [IHr1 IHr2]. split.
+          + intros Hc n ann first l. simpl in Hc. apply orb_false_iff in Hc. destruct Hc as [_ Hc].
+            destruct r as [|o2 e2 r2].
+            * rewrite instr_c_cons. change (instr_c H (ic c) Cnil) with Cnil.
+              rewrite eval_cmps_unfold, reval_cmps_unfold. cbn [andb].
+              rewrite IHe. mstep. rewrite announce_off. mnorm. try rewrite bind_ret_l.
+              rewrite <- (bind_ret_r (prim (p_cmp o l a))) at 1. reflexivity.
+            * rewrite !instr_c_cons. rewrite eval_cmps_unfold, reval_cmps_unfold. cbn [andb].
+              rewrite <- instr_c_cons.
+              rewrite IHe. mstep. rewrite announce_off. mnorm. try rewrite bind_ret_l.
+              mstep. rewrite bind_ret_l. mstep.
+              destruct a1; [|reflexivity]. apply (IHr1 Hc n false first a).
+          + rewrite instr_rc_cons. cbn [rlinks]. rewrite eval_rcmps_unfold. rewrite IHe. mstep. rewrite IHr2. reflexivity.
+      Qed.
+
       Transparent rnot_events announce ev notify RE CF truth prim prim_total lookup raise_builtin.
     End Refinement.
 
